@@ -422,6 +422,10 @@ def arr_method(R, E, arr, name, args, kwargs, node):
             return getitem(R, E, arr, (slice(None, None, None), 0), node)
         if arr.ndim == 2 and conc(arr.shape[0]) and arr.shape[0] == 1:
             return getitem(R, E, arr, (0, slice(None, None, None)), node)
+        if arr.ndim == 2 and not conc(arr.shape[1]) and not E.feasible(z(arr.shape[1]) != 1):
+            # a single column on every path that reaches this point
+            col = arr.view((arr.shape[0], 1), arr.imap)
+            return getitem(R, E, col, (slice(None, None, None), 0), node)
         raise Unsupported("ravel of a general 2-d array")
     if name == "astype":
         k = kind_of_dtype(args[0] if args else kwargs.get("dtype"))
